@@ -1,2 +1,111 @@
-(* C09 Props (under construction) *)
-Require Import Verif.Model.C09_Types Verif.Model.C09.
+(* C09 — pattern bindings: alternatives are atomic, names bind consistently, both Binding spellings are
+   interchangeable. ONLY statements closed by [exact]; each followed by Print Assumptions.
+   gen_cfg (wrapper switches, frame operations of Or.Match / Not.Match, Matcher.merge, tokensByString,
+   go/ast Expr/Stmt types) is regenerated from /repo on every run, so [eq_refl] below is re-checked
+   against what pattern/match.go says now.
+     match_impl = run_impl : Matcher.Match with its State, frame stack and 1<<idx masks
+     match_spec = run_spec : purely functional backtracking over the State
+   The oracle (go/types for the type-aware nodes), both fuels and the tree are universally quantified. *)
+From Coq Require Import List String ZArith NArith Bool.
+Import ListNotations.
+Require Import Verif.Model.C09_Types Verif.Gen.C09_Matcher Verif.Model.C09
+               Verif.Proofs.C09_Frames Verif.Proofs.C09 Verif.Proofs.C09_Spelling.
+
+(* not_framed (Not pushes a frame and always pops it), the Or discipline (push / merge / pop) and a merge
+   that hands the merged bits to the enclosing frame: finite obligation on the transcribed code shape. *)
+Theorem c09_cfg_ok : cfg_ok gen_cfg = true.
+Proof. exact (eq_refl true). Qed.
+Print Assumptions c09_cfg_ok.
+
+(* THE PROPERTY. If every Binding carries the position of its name in Pattern.Bindings (idx_inj; at most
+   64 names) then, for every pattern, tree, oracle and fuel: whenever Matcher.Match reports success with
+   State sigma, the reference semantics succeeds with the same value and exactly the State sigma. *)
+Theorem impl_sound :
+  forall orc mapping af fuel p t v sigma,
+    idx_inj_b mapping p = true ->
+    run_impl gen_cfg orc mapping af fuel p t = RDone true v sigma ->
+    run_spec gen_cfg orc af fuel p t = RDone true v sigma.
+Proof.
+  exact (fun orc mapping af fuel p t v sigma Hi =>
+           impl_sound_gen gen_cfg orc mapping af fuel p t v sigma c09_cfg_ok
+                          (proj1 (idx_inj_b_inv mapping p Hi)) (proj2 (idx_inj_b_inv mapping p Hi))).
+Qed.
+Print Assumptions impl_sound.
+
+(* Also for failure: a Match that returns (does not panic) returns what the reference semantics returns. *)
+Theorem impl_agrees :
+  forall orc mapping af fuel p t ok v sigma,
+    idx_inj_b mapping p = true ->
+    run_impl gen_cfg orc mapping af fuel p t = RDone ok v sigma ->
+    exists vs ss, run_spec gen_cfg orc af fuel p t = RDone ok vs ss /\ (ok = true -> vs = v /\ ss = sigma).
+Proof.
+  exact (fun orc mapping af fuel p t ok v sigma Hi =>
+           impl_agrees_gen gen_cfg orc mapping af fuel p t ok v sigma c09_cfg_ok
+                           (proj1 (idx_inj_b_inv mapping p Hi)) (proj2 (idx_inj_b_inv mapping p Hi))).
+Qed.
+Print Assumptions impl_agrees.
+
+(* An Or that succeeds anywhere inside a match ends in exactly the State its first matching alternative
+   produces when run alone from the State before the Or; the alternatives before it fail from that State. *)
+Theorem or_atomic :
+  forall orc mapping af fuel ps r st f rest B v st' stk,
+    List.length mapping <= 64 -> wf_pat_b mapping (POr ps) = true ->
+    frame_inv mapping B st f -> unwrap (cfg_unwrap_right gen_cfg) r = UNo ->
+    mi gen_cfg orc mapping af (S fuel) (POr ps) r (st, f :: rest) = RDone true v (st', stk) ->
+    exists pre q post, ps = (pre ++ q :: post)%list /\
+      Forall (fun q' => exists v' s', ms gen_cfg orc af fuel q' r st = RDone false v' s') pre /\
+      ms gen_cfg orc af fuel q r st = RDone true v st'.
+Proof.
+  exact (fun orc mapping af fuel ps r st f rest B v st' stk Hl =>
+           or_atomic_gen gen_cfg orc mapping af fuel ps r st f rest B v st' stk c09_cfg_ok Hl).
+Qed.
+Print Assumptions or_atomic.
+
+(* A Not leaves State and frame stack exactly as they were, whatever its operand bound. *)
+Theorem not_no_leak :
+  forall orc mapping af fuel q r st f rest B ok v m',
+    List.length mapping <= 64 -> wf_pat_b mapping (PNot q) = true ->
+    frame_inv mapping B st f -> unwrap (cfg_unwrap_right gen_cfg) r = UNo ->
+    mi gen_cfg orc mapping af (S fuel) (PNot q) r (st, f :: rest) = RDone ok v m' ->
+    m' = (st, f :: rest).
+Proof.
+  exact (fun orc mapping af fuel q r st f rest B ok v m' Hl =>
+           not_no_leak_gen gen_cfg orc mapping af fuel q r st f rest B ok v m' c09_cfg_ok Hl).
+Qed.
+Print Assumptions not_no_leak.
+
+(* A recalled name matched successfully only against a subtree the matcher's value-against-value
+   comparison accepts, and recalling changes nothing (implementation and reference semantics). *)
+Theorem rebind_equal :
+  forall orc mapping af fuel n idx sub r m w v m',
+    is_nilpat sub = true -> lookup n (fst m) = Some w -> unwrap (cfg_unwrap_right gen_cfg) r = UNo ->
+    mi gen_cfg orc mapping af (S fuel) (PBinding n idx sub) r m = RDone true v m' ->
+    am gen_cfg orc af w r = ADone true v /\ m' = m.
+Proof. exact (rebind_equal_impl gen_cfg). Qed.
+Print Assumptions rebind_equal.
+
+Theorem rebind_equal_reference :
+  forall orc af fuel n idx sub r st w v st',
+    is_nilpat sub = true -> lookup n st = Some w -> unwrap (cfg_unwrap_right gen_cfg) r = UNo ->
+    ms gen_cfg orc af (S fuel) (PBinding n idx sub) r st = RDone true v st' ->
+    am gen_cfg orc af w r = ADone true v /\ st' = st.
+Proof. exact (rebind_equal_spec gen_cfg). Qed.
+Print Assumptions rebind_equal_reference.
+
+(* `name` = (Binding "name" nil) and `name@pat` = (Binding "name" pat): parsed patterns that agree up to
+   the spelling (same names, same indices) are indistinguishable. *)
+Theorem spellings_equal :
+  forall orc mapping af fuel p1 p2 t,
+    norm_pat p1 = norm_pat p2 ->
+    run_impl gen_cfg orc mapping af fuel p1 t = run_impl gen_cfg orc mapping af fuel p2 t /\
+    run_spec gen_cfg orc af fuel p1 t = run_spec gen_cfg orc af fuel p2 t.
+Proof. exact (spellings_equal_gen gen_cfg). Qed.
+Print Assumptions spellings_equal.
+
+(* pop deletes exactly the names whose bit is set in the popped frame. *)
+Theorem pop_only_own :
+  forall mapping f st i n,
+    NoDup mapping -> nth_error mapping i = Some n ->
+    lookup n (pop_state mapping f st) = if N.testbit f (N.of_nat i) then None else lookup n st.
+Proof. exact pop_only_own_gen. Qed.
+Print Assumptions pop_only_own.
